@@ -14,6 +14,7 @@ from .. import rig as R, ref, gen, subm, dump, qcore
 from ..orch import h
 
 ID = "C04"
+TECHNIQUE = 'runtime monitoring - frame-shape and verbatim monitors: every frame handed to the socket parsed strictly; served events (live, stored, HTTP) deep-compared with the accepted ones; sweep over all Unicode scalar values and JSON types; injected storage faults and rate-limit refusals for the OK frame'
 LEVEL = "exploration"
 RULE = (
     "cases: (a) subscription ids - every ASCII code point 0-127 alone and embedded, quotes, backslashes, JSON-looking "
